@@ -84,6 +84,11 @@ structure ParseOpts where
   allowEscapes : Bool := true
   singleLine : Bool := false
   singleBlock : Bool := false
+  /-- as coded (Gen/Kvser.lean): is the flag-replace test `can_flag_replace and cur_block_contents[-1]…`
+  guarded by `cur_block_contents and` on the block path / on the leaf path?  Unguarded, an empty
+  block raises IndexError there. -/
+  guardFlagBlock : Bool := true
+  guardFlagLeaf : Bool := true
 deriving Repr
 
 /-- The tokenizer options `Keyvalues.parse` constructs its `Tokenizer` with. -/
@@ -193,6 +198,12 @@ def finish (ps : PState) : PResult :=
     | [] => .err .internal none
     | _ :: _ :: rest => .err (.eofOpenSections (rest.length + 1)) none
 
+/-- `}`: the finished block `fr` as it sits in its parent's child list (a skipped block is dropped). -/
+def closeInto (fr parent : Frame) : Frame :=
+  match fr.kind with
+  | .named n => { parent with kids := .block n fr.kids.reverse :: parent.kids }
+  | _ => parent
+
 /-- A token at the head of the loop (also the target of every `push_back`). -/
 def stepTop (po : ParseOpts) (ps : PState) (t : Tok.Obs) : Out :=
   if t.kind = kEof then .done (finish ps)
@@ -217,26 +228,24 @@ def stepTop (po : ParseOpts) (ps : PState) (t : Tok.Obs) : Out :=
   else if t.kind = kBraceClose then
     match ps.stack with
     | fr :: parent :: stk =>
-      let parent' : Frame := match fr.kind with
-        | .named n => { parent with kids := .block n fr.kids.reverse :: parent.kids }
-        | _ => parent
       if po.singleBlock && parent.kind == .root then
-        match parent'.kids.getLast? with
-        | some kv => .done (.single kv)
-        | none => .done (.err .pyIndexError none)
-      else .cont { ps with stack := parent' :: stk, canFlagReplace := true }
+        .done (match (closeInto fr parent).kids.getLast? with
+          | some kv => .single kv
+          | none => .err .pyIndexError none)
+      else .cont { ps with stack := closeInto fr parent :: stk, canFlagReplace := true }
     | _ => .done (.err .tooManyClose (some t.line))
   else .done (.err (.unexpected t.kind) (some t.line))
 
 /-- `cur_block_contents[-1] = keyvalue` if the flag-replace rule applies, else `.append(keyvalue)`.
-`isSame` tests the old last child (same real name, same kind).  `none` = IndexError. -/
-def placeFlagged (ps : PState) (kv : KV) (isSame : KV → Bool) : Option (List Frame) :=
+`isSame` tests the old last child (same real name, same kind).  `none` = IndexError (only when the
+test is not guarded by `cur_block_contents and`). -/
+def placeFlagged (guard : Bool) (ps : PState) (kv : KV) (isSame : KV → Bool) : Option (List Frame) :=
   match ps.stack with
   | [] => none
   | fr :: stk =>
     if ps.canFlagReplace then
       match fr.kids with
-      | [] => none
+      | [] => if guard then some ({ fr with kids := [kv] } :: stk) else none
       | last :: kids =>
         if isSame last then some ({ fr with kids := kv :: kids } :: stk)
         else some ({ fr with kids := kv :: last :: kids } :: stk)
@@ -258,7 +267,7 @@ def step (po : ParseOpts) (fold : Char → List Char) (ps : PState) (t : Tok.Obs
   | .flagBlockNl name flag =>
     if t.kind ≠ kNewline then .done (.err (.expectedNewline t.kind) (some t.line))
     else if readFlag po fold flag then
-      match placeFlagged ps (.block name [])
+      match placeFlagged po.guardFlagBlock ps (.block name [])
           (fun last => match last with | .block n _ => n == name | .leaf _ _ => false) with
       | none => .done (.err .pyIndexError none)
       | some stk => .cont { ps with stack := stk, blockLine := .expect, canFlagReplace := false, mode := .top }
@@ -277,7 +286,7 @@ def step (po : ParseOpts) (fold : Char → List Char) (ps : PState) (t : Tok.Obs
   | .flagLeafNl name value flag =>
     if t.kind ≠ kNewline then .done (.err (.expectedNewline t.kind) (some t.line))
     else if readFlag po fold flag then
-      match placeFlagged ps (.leaf name value)
+      match placeFlagged po.guardFlagLeaf ps (.leaf name value)
           (fun last => match last with | .leaf n _ => n == name | .block _ _ => false) with
       | none => .done (.err .pyIndexError none)
       | some stk =>
